@@ -753,6 +753,12 @@ func effects(repo string) (string, error) {
 				if len(ids) == 0 {
 					continue
 				}
+				sort.Slice(ids, func(i, j int) bool { // deterministic output
+					var a, b int
+					fmt.Sscan(ids[i], &a)
+					fmt.Sscan(ids[j], &b)
+					return a < b
+				})
 				var as []string
 				for _, s := range ci.args {
 					as = append(as, lbls(s))
